@@ -24,7 +24,7 @@ import os
 
 from translate import TranslateError, REPO, GEN, _parse, _func, _write_if_changed
 
-CASTS = {"uint8", "uint16", "uint32", "uint64", "int", "int64"}
+CASTS = {"uint8", "uint16", "uint32", "uint64", "int", "int64", "float64"}
 BINOPS = {ast.Add: "+", ast.Sub: "-", ast.Mult: "*", ast.FloorDiv: "/", ast.Mod: "%", ast.RShift: ">>>", ast.LShift: "<<<", ast.BitAnd: "&&&"}
 CMPOPS = {ast.Eq: "=", ast.NotEq: "≠", ast.Lt: "<", ast.LtE: "≤", ast.Gt: ">", ast.GtE: "≥"}
 
@@ -78,7 +78,17 @@ class Sym:
             return f"({self.opaque[src]} = true)"
         if isinstance(n, ast.BoolOp):
             op = " ∧ " if isinstance(n.op, ast.And) else " ∨ "
-            return "(" + op.join(self.test(v, st) for v in n.values) + ")"
+            vals = list(n.values)
+            parts = []
+            # a declared opaque conjunction may be a prefix of a longer `and` chain
+            for key, nm in self.opaque.items():
+                ks = key.split(" and ")
+                if isinstance(n.op, ast.And) and len(vals) > len(ks) and [ast.unparse(v) for v in vals[:len(ks)]] == ks:
+                    parts.append(f"({nm} = true)")
+                    vals = vals[len(ks):]
+                    break
+            parts += [self.test(v, st) for v in vals]
+            return "(" + op.join(parts) + ")"
         if isinstance(n, ast.UnaryOp) and isinstance(n.op, ast.Not):
             return f"(¬ {self.test(n.operand, st)})"
         if isinstance(n, ast.Compare) and len(n.ops) == 1 and type(n.ops[0]) in CMPOPS:
@@ -114,6 +124,11 @@ class Sym:
             elif isinstance(s, ast.AugAssign) and type(s.op) in BINOPS:
                 b = self.base(s.target)
                 st[b] = f"({st[b]} {BINOPS[type(s.op)]} {self.expr(s.value, st)})"
+            elif isinstance(s, ast.Assign) and len(s.targets) == 1 and isinstance(s.targets[0], ast.Tuple) and isinstance(s.value, ast.Call) \
+                    and getattr(s.value.func, "id", None) in self.spec.get("tuple_calls", {}):
+                outs = self.spec["tuple_calls"][s.value.func.id](self, s.value, st)
+                for tgt, e in zip(s.targets[0].elts, outs):
+                    st[self.base(tgt)] = e
             elif isinstance(s, ast.If):
                 c = self.test(s.test, st)
                 s1 = self._pure(s.body, st)
@@ -142,6 +157,17 @@ class Sym:
             e = self.expr(s.value, st)
             st[b] = nm
             return f"let {nm} := {e}; {self._seq(rest, st)}"
+        if isinstance(s, ast.Assign) and len(s.targets) == 1 and isinstance(s.targets[0], ast.Tuple) and isinstance(s.value, ast.Call) \
+                and getattr(s.value.func, "id", None) in self.spec.get("tuple_calls", {}):
+            st = dict(st)
+            outs = self.spec["tuple_calls"][s.value.func.id](self, s.value, st)
+            lets = ""
+            for tgt, e in zip(s.targets[0].elts, outs):
+                b = self.base(tgt)
+                nm = self._fresh(b)
+                lets += f"let {nm} := {e}; "
+                st[b] = nm
+            return lets + self._seq(rest, st)
         if isinstance(s, ast.AugAssign) and type(s.op) in BINOPS:
             b = self.base(s.target)
             st = dict(st)
@@ -233,6 +259,20 @@ KERNELS = {
     "hllAdd": dict(file="hyperloglog.py", func="_add", path=[], skip_first=1, params=["hash_val", "m", "p", "registers"], outputs=["reg_idx", "registers"],
                    calls={"_n_leading_zeros64": "nlz64"}, drop_return_none=True,
                    doc="`hyperloglog._add` after the hash: register index, rank, max (the call of `_n_leading_zeros64` is the translated `nlz64`)"),
+    "hhMaxStep": dict(file="heavyhitters.py", func="_max_count", path=[("for", 0)], skip_first=1,
+                      params=["keys_match", "lhh_count", "max_count"],
+                      opaque={"key_lens[row, col] == key_len and np.all(key_array == lhh[row, col])": "keys_match"}, bools=["keys_match"],
+                      outputs=["max_count"],
+                      doc="`heavyhitters._max_count` — body of the row loop after the column is computed; the match test is the parameter `keys_match`"),
+    "logCounterStep": dict(file="countmin.py", func="_log_counter", path=[("for", 0)],
+                           params=["counter", "uint_maxval", "below", "inc", "rand_ptr"], bools=["below", "inc"],
+                           opaque={"cprime < 0": "below", "rand < base ** (-cprime)": "inc"},
+                           init={"one": "1", "num_reserved": "0", "stopped": "0"},
+                           tuple_calls={"_rand": lambda sym, call, st: ["0", f"(randNext {sym.expr(call.args[1], st)})"]},
+                           outputs=["stopped", "counter", "rand_ptr"], early_return_flag="stopped",
+                           doc="`_log_counter` — body of the `for i in range(value)` loop: stop at the maximum, unconditional step below "
+                               "num_reserved (`below` = the test `cprime < 0` with cprime = counter - num_reserved), otherwise one draw from `_rand` "
+                               "and a step iff `inc` (= the test `rand < base ** (-cprime)`)"),
     "randNext": dict(file="countmin.py", func="_rand", path=[], params=["rand_ptr"], outputs=["rand_ptr"], stop_at_return=True,
                      opaque={}, doc="`_rand` — the pointer update (`rand_batch[:] = np.random.rand(2048)` is the refill, dropped)"),
     "addLinearScalar": dict(file="countmin.py", func="_add_linear", path=[], skip_first=1, params=["min_count", "value", "uint_maxval", "n_added_records"],
@@ -280,6 +320,17 @@ def translate_kernel(name, spec):
         stmts = new
     sym = Sym(spec)
     st = {p: p for p in spec["params"]}
+    st.update(spec.get("init", {}))
+    if spec.get("early_return_flag"):
+        flag = spec["early_return_flag"]
+
+        class Early(ast.NodeTransformer):
+            def visit_Return(self, node):
+                return [ast.parse(f"{flag} = 1").body[0], ast.Return(value=None)]
+
+        stmts = [Early().visit(s_) for s_ in stmts]
+        for s_ in stmts:
+            ast.fix_missing_locations(s_)
     if name == "addLinearScalar":
         st["changed"] = "1"
         # the early `return` must yield (0, min_count, n_added_records): emulate by rewriting `return` → outputs with changed = 0
@@ -314,11 +365,12 @@ def translate_kernel(name, spec):
 GROUPS = {
     "KernelsHll": ["nlz64", "hllMergeCell", "hllAdd"],
     "KernelsLin": ["mergeLinearCell", "addLinearScalar", "queryStepLinear", "queryStepLog16", "queryStepLog8"],
-    "KernelsHH": ["hhAddCell", "hhMergeCell"],
-    "KernelsRand": ["randNext"],
+    "KernelsHH": ["hhAddCell", "hhMergeCell", "hhMaxStep"],
+    "KernelsRand": ["randNext", "logCounterStep"],
 }
 
 EXPECT_STMT = {
+    "logCounterStep": (1, "cprime = float64(counter) - float64(num_reserved)"),
     # statements the translation treats as the definition of an opaque test: they must read exactly so
     "hhMergeCell": (0, "keys_match = np.all(lhh[row, col] == other_lhh[row, col]) and key_lens[row, col] == other_key_lens[row, col]"),
 }
